@@ -29,34 +29,8 @@ theorem C01_refines_spec (sites : List Site) (r : Req) (hd : inDomain sites r = 
 and prefix `p` exactly when `chosenKey` is (host pattern of site `i`, `p`). -/
 theorem C01_spec_site_key (sites : List Site) (r : Req) (i : Nat) (p : Bytes)
     (h : specRoute sites r = .site i p) :
-    ∃ e ∈ entries sites, e.idx = i ∧ e.path = p ∧ chosenKey sites r = some (e.host, p) := by
-  unfold specRoute at h
-  simp only [] at h
-  unfold chosenKey
-  simp only []
-  cases hc : List.find? (declared (entries sites)) (candidates (normHost r.host) (fallbacks sites)) with
-  | none => rw [hc] at h; cases h
-  | some c =>
-    rw [hc] at h
-    simp only [] at h ⊢
-    rw [findSome?_eq_find?_bind] at h
-    have hpred : (fun k => (lastWith (entries sites) c k).isSome)
-        = (fun k => (entries sites).any (fun e => e.host == c && e.path == k)) := by
-      funext k; exact lastWith_isSome _ _ _
-    rw [hpred] at h
-    cases hk : List.find? (fun k => (entries sites).any (fun e => e.host == c && e.path == k)) (prefixesDesc r.path) with
-    | none => rw [hk] at h; cases h
-    | some k =>
-      rw [hk] at h
-      simp only [Option.bind_some] at h
-      cases he : lastWith (entries sites) c k with
-      | none => rw [he] at h; cases h
-      | some e =>
-        rw [he] at h
-        simp only [Outcome.site.injEq] at h
-        obtain ⟨hm, hh, hp⟩ := lastWith_some he
-        refine ⟨e, hm, h.1, h.2, ?_⟩
-        simp [hh, ← h.2, hp]
+    ∃ e ∈ entries sites, e.idx = i ∧ e.path = p ∧ chosenKey sites r = some (e.host, p) :=
+  spec_site_key sites r i p h
 
 /-- … and it answers "not found" exactly when there is no such address; the status is 404,
 or 421 from HTTP/2 on, and the outcome carries no site (no handler chain runs). -/
